@@ -163,6 +163,7 @@ def check(model: Model, report: Report) -> None:
     report.rule("R01.4", "deterministic visitor: node first (pre-order), children in document order, recursion iff child is an array/object, child node = new_child(child, key)")
     report.rule("R01.5", "selector traces per kind of node value: name on objects, index/slice on arrays, wildcard on both, nothing on scalars; exact key lookup; children paired (value, key)")
     report.rule("R01.8", "parse side: 16 whole-query token shapes build exactly the segments (child/descendant) and selectors (raw shorthand name, decoded quoted name, signed index, slice components, wildcard, filter) the grammar describes, in token order")
+    report.rule("R01.10", "deterministic traversal is the default mode of every environment")
     report.rule("R01.9", "JSONPathNode.new_child keeps the value object, extends the location by exactly the key, propagates root")
     report.assumptions += [
         "A1: CPython iteration order of dict views, enumerate, list; A2: slice.indices/list[slice] implement RFC 9535 slice semantics",
@@ -181,6 +182,23 @@ def check(model: Model, report: Report) -> None:
     from . import _shapes
 
     _shapes.check_query_trees(model, report, "R01.8")
+    # R01.10 the deterministic mode is the default (class attribute) and the default environment uses it
+    import ast as _ast
+
+    env = model.cls("environment.JSONPathEnvironment")
+    nd = env.attrs.get("nondeterministic")
+    if isinstance(nd, _ast.Constant) and nd.value is False:
+        report.ok("R01.10", env.qualname, "nondeterministic defaults to False")
+    else:
+        report.fail("R01.10", env.qualname, "default-mode", f"JSONPathEnvironment.nondeterministic defaults to {_ast.unparse(nd) if nd is not None else None}: the default environment would not visit object members in the mapping's own order")
+    init = env.methods.get("__init__")
+    if init is not None:
+        for n in _ast.walk(init.node):
+            if isinstance(n, (_ast.Assign, _ast.AnnAssign)):
+                tg = n.targets if isinstance(n, _ast.Assign) else [n.target]
+                for t in tg:
+                    if isinstance(t, _ast.Attribute) and t.attr == "nondeterministic":
+                        report.fail("R01.10", init.qualname, "mode-set-in-init", "the constructor overrides the nondeterministic flag", file=init.file, line=n.lineno)
     report.extra["explanation"] = (
         "C01: traces of the 4 structural selectors x 7 kinds of node value (x index regions / slice-step regions), "
         "both segments, the deterministic visitor (x depth regions), the segment fold and new_child, each compared with the RFC shape."
